@@ -15,6 +15,9 @@ PROP = dict(
         # concurrent first contact: k goroutines leave a spin barrier together and call Wait (one of them possibly
         # AdjustOnFailure(429)) for a host that has no bucket yet; no eviction/cleanup can happen in these cases, so the
         # lifetime window bound / penalty must hold for every schedule (catches a non-atomic check-then-insert in getBucket)
+        # rounds with the suffix x: the context handed to NewBucketManager is cancelled (what archiver.Stop does) while callers are
+        # blocked in Wait on an empty bucket / under a penalty, later rounds run on the cancelled manager: a return of Wait is a
+        # release, so the same window/penalty predicates must hold (C13_cancel_* theorems, Rate/Cancel.v)
         dict(driver="mgrconc", binary="zrate", noshrink=True, quick=24, thorough=300, shard=30,
              monitors=["table_bounded", "lifetime_window_bound", "lifetime_penalty_honoured",
                        "host_window_bound_across_evictions", "host_penalty_across_evictions"]),
@@ -27,13 +30,23 @@ PROP = dict(
         # (failure count, rate) read after the first item
         # one driver process per (capacity, rate) pair - the archiver can be started once per process; capacity != rate so
         # that the order of the two values in archiver.Start is visible
-        dict(driver="archrl", binary="zratearch", noshrink=True, env={"ZV_ARCHRL_CONF": "2,7"}, quick=8, thorough=60, shard=50,
+        # ... and one --warc-discard-status list per process (403,429 / 403 / Zeno's default 429): the script alphabet has the
+        # Cloudflare challenge page (403c = 403 + cf-mitigated: challenge), which archive() must report to the limiter as a
+        # throttling failure whatever the discard list says about status 403, and the plain 403 (a success for archive())
+        dict(driver="archrl", binary="zratearch", noshrink=True, env={"ZV_ARCHRL_CONF": "2,7", "ZV_ARCHRL_DISCARD": "403,429"}, quick=8, thorough=60, shard=50,
              monitors=["penalty_honoured_at_origin_across_items", "every_failure_answer_reported_5xx_lowers_rate",
                        "limiter_built_with_operator_capacity_and_rate", "window_bound_at_origin_with_configured_values"]),
-        dict(driver="archrl", binary="zratearch", noshrink=True, env={"ZV_ARCHRL_CONF": "9,1"}, quick=6, thorough=50, shard=50,
+        dict(driver="archrl", binary="zratearch", noshrink=True, env={"ZV_ARCHRL_CONF": "9,1", "ZV_ARCHRL_DISCARD": "403"}, quick=6, thorough=50, shard=50,
              monitors=["penalty_honoured_at_origin_across_items", "every_failure_answer_reported_5xx_lowers_rate",
                        "limiter_built_with_operator_capacity_and_rate", "window_bound_at_origin_with_configured_values"]),
-        dict(driver="archrl", binary="zratearch", noshrink=True, env={"ZV_ARCHRL_CONF": "150,50"}, quick=6, thorough=50, shard=50,
+        dict(driver="archrl", binary="zratearch", noshrink=True, env={"ZV_ARCHRL_CONF": "150,50", "ZV_ARCHRL_DISCARD": "429"}, quick=6, thorough=50, shard=50,
+             monitors=["penalty_honoured_at_origin_across_items", "every_failure_answer_reported_5xx_lowers_rate",
+                       "limiter_built_with_operator_capacity_and_rate", "window_bound_at_origin_with_configured_values"]),
+        # a STOP of the crawl with workers blocked in the limiter's Wait (penalty after 429/408/425/challenge, or empty bucket at
+        # 0.2 tokens/s): one process = all cases brought to their blocked state, then ONE archiver.Stop(); the origin is watched
+        # for another 1.5 s: no request of another item inside the penalty, no request without a token, also during shutdown
+        dict(driver="archstop", binary="zratearch", noshrink=True, env={"ZV_ARCHRL_CONF": "3,0.2", "ZV_ARCHRL_DISCARD": "403,429"},
+             quick=6, thorough=40, shard=50,
              monitors=["penalty_honoured_at_origin_across_items", "every_failure_answer_reported_5xx_lowers_rate",
                        "limiter_built_with_operator_capacity_and_rate", "window_bound_at_origin_with_configured_values"]),
         # hosts in continuous use while the stale-bucket sweep ticks (cleanup period 250-400 ms real time, table far from full):
@@ -44,7 +57,7 @@ PROP = dict(
     ],
     partial="IEEE-754: the model computes over Q where the code uses binary64 (tokens/rate compared within 1e-9, a grant decision "
             "within 1e-6 of the threshold is not compared); per-host bounds hold for a bucket's lifetime only - LFU eviction and the "
-            "stale-bucket cleanup hand a host a fresh full bucket (known finding); archive() retries do not pass through Wait (the archrl leg checks, on the real archiver, that every item passes through Wait once, that every failure answer - also the one to the last permitted attempt - is reported, and that no request of another item reaches the origin inside the penalty; a plain 403 is not reported by archive()).",
+            "stale-bucket cleanup hand a host a fresh full bucket (known finding); archive() retries do not pass through Wait (the archrl leg checks, on the real archiver, that every item passes through Wait once, that every failure answer - also the one to the last permitted attempt - is reported, and that no request of another item reaches the origin inside the penalty; a plain 403 is not reported by archive(), a 403 Cloudflare challenge page is - whatever --warc-discard-status says; the archstop leg checks the same at the origin across archiver.Stop()).",
     assumptions=["binary64 arithmetic of refill/adjustOnFailure/onSuccess is within 1e-9 of exact arithmetic (checked on every run, not proved)",
                  "clock readings taken under tb.mu are non-decreasing in lock order (monotonic clock)",
                  "capacity >= 0 and configured rate >= 0 (NaN/negative configuration not modelled)",
@@ -52,5 +65,9 @@ PROP = dict(
     level_text="Theorems by induction over all operation histories (= all schedules, operations being atomic under the bucket mutex) and all "
                "clock readings: ranges for every history; window bound by a potential-function argument; penalty by an invariant; manager "
                "table bound over all label lists incl. every eviction choice. Model tied to the real bucket under a virtual clock by one-step "
-               "simulation from the implementation's own state, and to the real BucketManager by a real-time black-box stream.",
+               "simulation from the implementation's own state, and to the real BucketManager by a real-time black-box stream. "
+               "Stopping the crawl: an LTS of callers inside the blocking Wait with cancellations of the manager's context at arbitrary points; "
+               "theorem: every run is a run of the manager without the cancellations and the returned Wait calls are exactly its token grants "
+               "(so window bound and penalty hold for the returns across a stop); tied to the real manager (mgrconc rounds with a cancel) and "
+               "to the real archiver stopped with workers blocked in Wait (archstop leg, observed at the origin).",
 )
